@@ -8,7 +8,6 @@ import (
 	"os"
 	"runtime/debug"
 	"sort"
-	"strings"
 
 	"verifharness/core"
 )
@@ -120,17 +119,16 @@ func firstDivergence(w *World) (string, map[string]interface{}) {
 		return o
 	}
 	if i == n && len(k.Rec) == len(g.Rec) {
-		last := "no-steps"
-		if n > 0 {
-			last = "after-" + opName(k.Rec[n-1].Op)
-		}
-		return last, map[string]interface{}{"traces": fmt.Sprintf("identical for all %d steps (instruction, pc, depth, top of stack)", n)}
+		return "same-trace", map[string]interface{}{"traces": fmt.Sprintf("identical for all %d steps (instruction, pc, depth, top of stack)", n)}
 	}
 	// the instruction whose effect differs is the one executed before the first differing step
 	sus := "first-step"
-	if i > 0 {
+	switch {
+	case i < n && k.Rec[i].Depth == g.Rec[i].Depth && k.Rec[i].PC == g.Rec[i].PC && (k.Rec[i].Err == "") != (g.Rec[i].Err == ""):
+		sus = opName(k.Rec[i].Op) // same instruction, refused on one side only
+	case i > 0:
 		sus = opName(k.Rec[i-1].Op)
-	} else if n > 0 {
+	case n > 0:
 		sus = opName(k.Rec[0].Op)
 	}
 	return sus, map[string]interface{}{"first_divergent_step": i, "kvm_steps": win(k.Rec), "reference_steps": win(g.Rec),
@@ -285,7 +283,7 @@ func judge(c *core.Case, w *World, gen string) *Outcome {
 				wit(map[string]interface{}{"divergence": div, "kvm": summary(k1), "reference": summary(g)}))
 			return k1
 		}
-		if k1.RDataAlias && (sus == "RETURNDATACOPY" || strings.HasPrefix(sus, "after-")) {
+		if k1.RDataAlias && (sus == "RETURNDATACOPY" || sus == "same-trace") {
 			// EIP-211: the buffer is the output of the last call; here it is the caller's own
 			// memory (identity precompile returning its input slice) and changes with it.
 			c.Violation(keyRDataAlias, "return data read after the caller wrote to its own memory: "+what,
